@@ -164,6 +164,9 @@ func judgeCaller(c Case, i int, out Outcome, single bool, v *harness.Verdict) {
 	n := len(at)
 	who := fmt.Sprintf("caller %d (%s)", i, cc.API)
 	v.Class("api:"+cc.API, "ctx:"+cc.Ctx)
+	if cc.Cause != 0 {
+		v.Class(fmt.Sprintf("ctx-cause:%d", cc.Cause))
+	}
 	if !rec.Started || !rec.Returned {
 		if !out.TimedOut {
 			v.Failf("harness", "%s never ran", who)
@@ -249,6 +252,9 @@ func judgeCaller(c Case, i int, out Outcome, single bool, v *harness.Verdict) {
 		is408 := plain408(a, e, kinds[k])
 		if kinds[k] == "retry" && a.Demand {
 			v.Class("retry-after-honoured:" + e.RA.Form)
+			if e.RA.Form == "date" && e.RA.Date != "" {
+				v.Class("date-header:" + e.RA.Date)
+			}
 			if e.RA.Form == "sec" && e.RA.Pad > 0 {
 				v.Class("retry-after-honoured:sec-zero-padded")
 			}
@@ -319,6 +325,13 @@ func judgeCaller(c Case, i int, out Outcome, single bool, v *harness.Verdict) {
 		last, lastKind, lastEv = at[n-1], kinds[n-1], cc.Script[at[n-1].Ev]
 	}
 	R := rec.Return
+	if rec.IsCause {
+		v.Failf("context-cause-returned-instead-of-ctx-err", "%s (context %s, cause kind %d): the call returned the cancellation cause %q at %v, not the context's error", who, cc.Ctx, cc.Cause, rec.ErrText, R)
+		if n >= 2 || hasEnd {
+			v.NonTrivial = true
+		}
+		return
+	}
 	ctxResult := rec.ErrKind == "canceled" || rec.ErrKind == "deadline"
 	if hasEnd && !ctxResult && R > tEnd {
 		v.Failf("context-end-ignored", "%s: context ended at %v but the call returned (%s) only at %v", who, tEnd, rec.ErrKind, R)
@@ -371,6 +384,8 @@ func judgeCaller(c Case, i int, out Outcome, single bool, v *harness.Verdict) {
 			v.Failf("transport-error-returned-as-context-end", "%s: attempt %d failed in transport at %v (%s, timeout=%v) while the caller's context was alive; instead of a retry the call returned %q", who, n-1, last.End, evLabel(lastEv), last.Timeout, rec.ErrText)
 		case !hasEnd:
 			v.Failf("spurious-context-error", "%s: no context end was planned, yet the call returned %s", who, rec.ErrText)
+		case !rec.IsCtxErr:
+			v.Failf("context-error-not-identical", "%s: the call returned %q, which is not the caller context's Err()", who, rec.ErrText)
 		case rec.ErrKind != want:
 			v.Failf("wrong-context-error", "%s: context plan %s, error %s", who, cc.Ctx, rec.ErrText)
 		case R > tEnd:
